@@ -30,7 +30,9 @@ Inductive pc :=
 | RN_lock (n p : string)
 | RN_get2 (n p : string)
 | RN_list (n p : string)
+| RN_setst (n p : string)
 | RN_rm (n p : string)
+| RN_delst (n p : string)
 | RN_prm (n p : string)
 | RN_unlock (p : string) (b : bool).
 
@@ -50,6 +52,8 @@ Definition call_of (c : pc) : option rcall :=
   | RN_lock _ p => Some (CLock (plock p))
   | RN_list n _ => Some (CListNodeWls n)
   | RN_rm n _ => Some (CRemoveNode n)
+  | RN_setst n _ => Some (CSetStatus n)
+  | RN_delst n _ => Some (CDelStatus n)
   end.
 
 Definition next (c : pc) (r : reply) : pc :=
@@ -69,8 +73,10 @@ Definition next (c : pc) (r : reply) : pc :=
   | RN_get1 n => if negb (r_ok r) then Done false else RN_lock n (hd_str (r_strs r))
   | RN_lock n p => RN_get2 n p
   | RN_get2 n p => if negb (r_ok r && String.eqb (hd_str (r_strs r)) p) then RN_unlock p false else RN_list n p
-  | RN_list n p => if r_ok r && is_nil (r_strs r) then RN_rm n p else RN_unlock p false
-  | RN_rm n p => if negb (r_ok r) then RN_unlock p false else RN_prm n p
+  | RN_list n p => if r_ok r && is_nil (r_strs r) then RN_setst n p else RN_unlock p false
+  | RN_setst n p => RN_rm n p
+  | RN_rm n p => if negb (r_ok r) then RN_unlock p false else RN_delst n p
+  | RN_delst n p => RN_prm n p
   | RN_prm _ p => RN_unlock p (r_ok r)
   end.
 
@@ -88,10 +94,12 @@ Definition an_getpod (n p : string) : prog :=
   Do (CGetPod p) (fun r2 => if negb (r_ok r2) then an_rollback n else an_create n p).
 Definition rn_unlock (p : string) (b : bool) : prog := Do (CUnlock (plock p)) (fun _ => Ret b).
 Definition rn_prm (n p : string) : prog := Do (PRemoveNode n) (fun r4 => rn_unlock p (r_ok r4)).
+Definition rn_delst (n p : string) : prog := Do (CDelStatus n) (fun _ => rn_prm n p).
 Definition rn_rm (n p : string) : prog :=
-  Do (CRemoveNode n) (fun r3 => if negb (r_ok r3) then rn_unlock p false else rn_prm n p).
+  Do (CRemoveNode n) (fun r3 => if negb (r_ok r3) then rn_unlock p false else rn_delst n p).
+Definition rn_setst (n p : string) : prog := Do (CSetStatus n) (fun _ => rn_rm n p).
 Definition rn_list (n p : string) : prog :=
-  Do (CListNodeWls n) (fun r2 => if r_ok r2 && is_nil (r_strs r2) then rn_rm n p else rn_unlock p false).
+  Do (CListNodeWls n) (fun r2 => if r_ok r2 && is_nil (r_strs r2) then rn_setst n p else rn_unlock p false).
 Definition rn_get2 (n p : string) : prog :=
   Do (CGetNode n) (fun r' =>
     if negb (r_ok r' && String.eqb (hd_str (r_strs r')) p) then rn_unlock p false else rn_list n p).
@@ -113,7 +121,9 @@ Definition prog_at (c : pc) : prog :=
   | RN_lock n p => Do (CLock (plock p)) (fun _ => rn_get2 n p)
   | RN_get2 n p => rn_get2 n p
   | RN_list n p => rn_list n p
+  | RN_setst n p => rn_setst n p
   | RN_rm n p => rn_rm n p
+  | RN_delst n p => rn_delst n p
   | RN_prm n p => rn_prm n p
   end.
 
@@ -248,13 +258,13 @@ Qed.
 (* ---------- the invariant ---------- *)
 Definition owns (c : pc) (n : string) : Prop :=
   match c with
-  | AN_getpod m _ | AN_create m _ | AN_rollback m | RN_prm m _ => m = n
+  | AN_getpod m _ | AN_create m _ | AN_rollback m | RN_delst m _ | RN_prm m _ => m = n
   | _ => False
   end.
 Definition holds (c : pc) (k : string) : Prop :=
   match c with
   | RP_list2 p true | RP_del p true => k = plock p
-  | RP_unlock p _ | RN_unlock p _ | RN_get2 _ p | RN_list _ p | RN_rm _ p | RN_prm _ p => k = plock p
+  | RP_unlock p _ | RN_unlock p _ | RN_get2 _ p | RN_list _ p | RN_setst _ p | RN_rm _ p | RN_delst _ p | RN_prm _ p => k = plock p
   | _ => False
   end.
 Definition nowl (w : rw) (n : string) : Prop := forall id, ~ In (id, n) (wls w).
@@ -273,7 +283,7 @@ Definition assert (w : rw) (tr : list ev) (i : nat) (c : pc) : Prop :=
   | RP_del p _ => Qa w tr i p
   | AN_create _ p => P2 w tr i p
   | RN_list n p => node_pod w n = Some p
-  | RN_rm n p => node_pod w n = Some p /\ nowl w n
+  | RN_setst n p | RN_rm n p => node_pod w n = Some p /\ nowl w n
   | _ => True
   end.
 
@@ -388,6 +398,7 @@ Proof.
   - apply P2_ext. destruct H as (ig & Hg & H). exists ig. split; [exact Hg|].
     destruct H as [H|H]; [left; apply Ep; exact H | right; exact H].
   - unfold node_pod in *. rewrite En. exact H.
+  - unfold node_pod, nowl in *. rewrite En, Ew. exact H.
   - unfold node_pod, nowl in *. rewrite En, Ew. exact H.
 Qed.
 
@@ -604,6 +615,7 @@ Proof.
            ++ right. exists id, t2. repeat split; try apply ev_at_ext; assumption.
       * exact H.
       * exact H.
+      * exact H.
   - left. destruct Hw as (ic & t1 & n & ig & H1 & H2 & H3 & H4 & H5).
     exists ig, ic, (List.length tr), il, t1, i, p, n, okl.
     pose proof (ev_at_lt _ _ _ H3). pose proof (ev_at_lt _ _ _ Hl).
@@ -653,6 +665,9 @@ Proof.
       * destruct H as [H Hw]. assert (n <> n0) by (intro X; subst n0; apply Nn; eapply node_pod_in_names; exact H).
         split; [|exact Hw].
         unfold node_pod in *. cbn. replace (String.eqb n n0) with false by (symmetry; apply String.eqb_neq; assumption). exact H.
+      * destruct H as [H Hw]. assert (n <> n0) by (intro X; subst n0; apply Nn; eapply node_pod_in_names; exact H).
+        split; [|exact Hw].
+        unfold node_pod in *. cbn. replace (String.eqb n n0) with false by (symmetry; apply String.eqb_neq; assumption). exact H.
   - left. destruct Hw as (id & t2 & H1 & H2 & H3). destruct (Tr _ _ _ H3) as (il & okl & L & Hl).
     exists ig, (List.length tr), id, il, i, t2, p, n, okl.
     pose proof (ev_at_lt _ _ _ H3). pose proof (ev_at_lt _ _ _ Hg).
@@ -661,7 +676,7 @@ Qed.
 
 (* RemoveNode's store removal, under the pod lock, after the checks *)
 Lemma inv_rmnode : forall w pcs tr i n p, Inv w pcs tr -> nth_error pcs i = Some (RN_rm n p) ->
-  Inv (set_nodes w (filter (fun x => negb (String.eqb (fst x) n)) (nodes w))) (set_nth i (RN_prm n p) pcs)
+  Inv (set_nodes w (filter (fun x => negb (String.eqb (fst x) n)) (nodes w))) (set_nth i (RN_delst n p) pcs)
       (tr ++ [(i, CRemoveNode n, true)]).
 Proof.
   intros w pcs tr i n p [Rf Ow Lk Tr Pc] Hi.
@@ -682,7 +697,7 @@ Proof.
     + unfold node_names. cbn. apply NoDup_map_filter. exact D.
   - constructor; cbn [nres set_nodes].
     + intros m H. destruct (String.eqb m n) eqn:E.
-      * apply String.eqb_eq in E. subst m. right. exists i, (RN_prm n p). split; [eapply nth_set_nth_eq; exact Hi | reflexivity].
+      * apply String.eqb_eq in E. subst m. right. exists i, (RN_delst n p). split; [eapply nth_set_nth_eq; exact Hi | reflexivity].
       * apply String.eqb_neq in E. destruct (i_own _ _ Ow m H) as [L|[j [cj [Hj Ho]]]].
         -- left. apply Names. split; assumption.
         -- right. assert (j <> i) by (intro X; subst j; rewrite Hi in Hj; inversion Hj; subst; exact Ho).
@@ -712,6 +727,8 @@ Proof.
     + apply P2_ext. exact H.
     + assert (n0 <> n) by (eapply (Other j n0 p0); eauto; reflexivity).
       unfold node_pod in *. cbn. rewrite find_filter_other by assumption. exact H.
+    + destruct H as [H Hw]. assert (n0 <> n) by (eapply (Other j n0 p0); eauto; reflexivity).
+      split; [|exact Hw]. unfold node_pod in *. cbn. rewrite find_filter_other by assumption. exact H.
     + destruct H as [H Hw]. assert (n0 <> n) by (eapply (Other j n0 p0); eauto; reflexivity).
       split; [|exact Hw]. unfold node_pod in *. cbn. rewrite find_filter_other by assumption. exact H.
 Qed.
@@ -786,8 +803,13 @@ Proof.
       frame (RN_list n p). split; [exact Q | exact (list_node_wls_nil w n El)].
     + destruct (mem n (node_names w)); inversion H; subst w' c' e; clear H; cbn [next r_ok r_strs no andb is_nil];
         frame (RN_list n p).
+  - (* RemoveNode: status set (result ignored) *)
+    pose proof (v_pc _ _ _ V _ _ Hi) as Q. cbn [assert] in Q.
+    inversion H; subst w' c' e; clear H. cbn [next]. frame (RN_setst n p). exact Q.
   - (* RemoveNode: store removal *)
     inversion H; subst w' c' e; clear H. cbn [next r_ok yes negb]. right. apply inv_rmnode; assumption.
+  - (* RemoveNode: status delete (result ignored) *)
+    inversion H; subst w' c' e; clear H. cbn [next]. frame (RN_delst n p).
   - (* RemoveNode: plugin removal *)
     destruct (i_ownf _ _ (v_own _ _ _ V) _ _ _ Hi eq_refl) as [Nr _].
     apply mem_In in Nr. rewrite Nr in H. inversion H; subst w' c' e; clear H. cbn [next r_ok yes]. right.
